@@ -576,6 +576,12 @@ func (ex *Exec) mergeResults(base int, rs []Result, sig *types.Signature) []Resu
 	}
 	m := &State{pc: append([]*Term(nil), first.pc[:base]...), heap: map[int]Val{}, worlds: map[int]*World{}, optObj: map[int]*Obj{}, depth: first.depth}
 	m.pc = append(m.pc, Or(conds...))
+	if first.calls != nil {
+		m.calls = make(map[string][]CallRec, len(first.calls))
+		for k, v := range first.calls {
+			m.calls[k] = append([]CallRec(nil), v...)
+		}
+	}
 	for _, r := range rs {
 		for _, d := range r.st.defs {
 			m.AssumeDef(d)
@@ -732,7 +738,7 @@ func (ex *Exec) appendOp(st *State, a, b Val, t types.Type) Val {
 			res = Store(res, Add(sa.Len, IntLit(j)), Select(arrB, Add(sb.Off, IntLit(j))))
 		}
 		o := st.NewObj("append", nil, res)
-		return &SliceV{Obj: o, Off: IntLit(0), Len: Add(sa.Len, sb.Len), Elem: et}
+		return &SliceV{Obj: o, Off: IntLit(0), Len: Add(sa.Len, sb.Len), Elem: et, Nil: And(sa.IsNil(), Eq(sb.Len, IntLit(0)))}
 	}
 	arrB := ex.content(st, sb.Obj).(*Term)
 	res := Det("appended", ArraySort(SInt, es), arrA, sa.Len, arrB, sb.Off, sb.Len)
@@ -742,7 +748,7 @@ func (ex *Exec) appendOp(st *State, a, b Val, t types.Type) Val {
 		Implies(And(Le(sa.Len, k), Lt(k, Add(sa.Len, sb.Len))), Eq(Select(res, k), Select(arrB, Add(sb.Off, Sub(k, sa.Len)))))),
 		[]*Term{Select(res, k)}))
 	o := st.NewObj("append", nil, res)
-	return &SliceV{Obj: o, Off: IntLit(0), Len: Add(sa.Len, sb.Len), Elem: et}
+	return &SliceV{Obj: o, Off: IntLit(0), Len: Add(sa.Len, sb.Len), Elem: et, Nil: And(sa.IsNil(), Eq(sb.Len, IntLit(0)))}
 }
 
 // externalUF models an unverified pure function as uninterpreted functions of its (term) arguments, one per result.
